@@ -312,8 +312,9 @@ fn make_inputs(model: &Model) -> Result<Vec<(NodeId, Value)>, &'static str> {
     Ok(v)
 }
 
-/// Largest request honoured while a model runs (see alloc.rs, Policy::Refuse).
-pub const RUN_ALLOC_CAP: usize = 1 << 30;
+/// Largest request honoured while model operators execute (constant folding
+/// in an optimising load, `Model::run`); see alloc.rs, Policy::Refuse.
+pub const RUN_ALLOC_CAP: usize = 256 << 20;
 
 fn run_model(model: &Model, which: &str, progress: &mut dyn FnMut(&str), out: &mut CaseOut) {
     if model.output_ids().is_empty() {
@@ -427,7 +428,12 @@ pub fn run_case(fmt: Fmt, bytes: &[u8], dir: Option<&Path>, do_run: bool, progre
             continue;
         }
         progress(e.name());
-        alloc::arm_process(budget, Policy::Map);
+        if e.bounded() {
+            alloc::arm_process(budget, Policy::Map);
+        } else {
+            // constant folding executes operators: honest resource use, capped
+            alloc::arm_process(RUN_ALLOC_CAP.max(budget), Policy::Refuse);
+        }
         let r = vcore::catch(|| -> Result<Model, LoadError> {
             match e {
                 Entry::BufOpt => Model::load(bytes.to_vec()),
